@@ -8,12 +8,48 @@
     (known findings): an output predicate absent from one program gets no completed definition
     (forward direction emits no problem at all), and clashing private predicate names are renamed
     onto each other.
-  The model-theoretic statement `ExternalRefutes` needs C04 (completion) and is not proved.
+  * `external_refutes_programs` (restricted form of the model-theoretic statement): for a task that
+    compares two programs, without placeholders and without a proof outline, tightness not
+    bypassed, every flag combination: some emitted problem is refuted by a classical
+    interpretation iff it satisfies the user-guide assumptions and, in a requested direction, is a
+    stable model of one program (on that program's vocabulary, with its own input facts) and
+    satisfies the completed definitions of the other program's private predicates without being
+    a stable model of that program. Composes C04 (`completion_tight`), C07 (classic portfolio),
+    C19 (eq-break, decompositions), the renaming of clashing private predicates and the assembly.
+  Not proved: specifications (formulas instead of a program), placeholders, proof outlines, and
+  the uniqueness of the private extents (which turns "not a stable model of the other program"
+  into "the other program cannot produce the public part").
 -/
 import AnthemModel.Model.External
 import AnthemModel.Props.C19
+import AnthemModel.Proofs.ExternalSem
 namespace Anthem.C02
 open Asp
+
+/-- **C02, restricted form** (see the header). `NoSymbolConflictExt`: `rename_conflicting_symbols`
+    is the identity on the two assembled problems (cf. the C03 known finding). The statement is
+    about the interpretation restricted to each program's vocabulary, so an output predicate that
+    is absent from a program does not constrain that side (the `missing_output` finding below). -/
+theorem external_refutes_programs (t : ExternalTask) (PL : Program) (hspec : t.specification = .inl PL)
+    (hph : t.userGuide.placeholders = []) (hpo : t.proofOutline = []) (hbyp : t.bypassTightness = false)
+    (fuel : Nat) (ps : List Problem) (h : externalProblems t fuel = .ok ps) :
+    ∃ ΓL ΓR, theoryTranslate t [] fuel PL = .ok ΓL ∧ theoryTranslate t [] fuel t.program = .ok ΓR ∧
+      (NoSymbolConflictExt t ΓL ΓR → ∀ (J : Interp) (ρ : Asg),
+        ((∃ P ∈ ps, Refutes J ρ P) ↔
+          (∀ a ∈ t.userGuide.formulas, a.role = .assumption → sat J a.formula ρ) ∧
+          (((t.direction = .universal ∨ t.direction = .forward) ∧
+              Stable PL t.userGuide.inputs (restrictTo (ext PL.preds t.userGuide.inputs) J.pred) J.fc ∧
+              (∀ a ∈ rightSide t ΓR, a.role = .assumption → sat J a.formula ρ) ∧
+              ¬ Stable t.program t.userGuide.inputs
+                (restrictTo (ext t.program.preds t.userGuide.inputs)
+                  (renamedInterp (t.specPrivate.filter (· ∈ t.progPrivate)) J.pred)) J.fc) ∨
+           ((t.direction = .universal ∨ t.direction = .backward) ∧
+              Stable t.program t.userGuide.inputs
+                (restrictTo (ext t.program.preds t.userGuide.inputs)
+                  (renamedInterp (t.specPrivate.filter (· ∈ t.progPrivate)) J.pred)) J.fc ∧
+              (∀ a ∈ leftSide t ΓL, a.role = .assumption → sat J a.formula ρ) ∧
+              ¬ Stable PL t.userGuide.inputs (restrictTo (ext PL.preds t.userGuide.inputs) J.pred) J.fc)))) :=
+  Anthem.external_refutes_programs t PL hspec hph hpo hbyp fuel ps h
 
 /-- number of emitted problems for a task (0 when refused) -/
 def emitted (t : ExternalTask) (fuel : Nat) : Nat :=
